@@ -340,6 +340,15 @@ func (m *BigMap) Delete(key Object) (Map, bool) {
 	return m, true
 }
 
+// CopyMap returns a map that shares no mutable storage with m, so that it can be
+// modified without changing what other bindings of the same map see (maps are values).
+func CopyMap(m Map) Map {
+	if bm, ok := m.(*BigMap); ok {
+		return &BigMap{kv: slices.Clone(bm.kv)}
+	}
+	return m // small maps are copied by value already.
+}
+
 func NewMapSize(size int) Map {
 	if size <= MaxSmallMap {
 		return SmallMap{}
